@@ -454,7 +454,8 @@ theorem wellformed_roundtrip_rows_nometa (r : RawRows) (cached : Option ResultMe
 /-! ### iterating the rows past an error
 
 `RawRowIterator` is an `ExactSizeIterator` of `rows_count` items: a failing row does not end the iteration and does
-not advance the slice, so the same error is produced for every remaining announced row.  The CPU work of a consumer
+end the iteration: the first failing row reports its column, the iterator then stands at the failing cell and every
+remaining announced row fails there at column 0 (`iterRows_after_error`).  The CPU work of a consumer
 that keeps iterating past errors is therefore proportional to the announced row count, not to the bytes received
 (by design; recorded as an assumption).  What C08 needs is that the iteration terminates and that nothing
 accumulates: each item is built from the current slice only (`readCells` on `buf`), so a consumer that drops or stops
@@ -467,14 +468,66 @@ theorem iterRows_length (ncols : Nat) : ∀ (n : Nat) (buf : Bytes), (iterRows n
     unfold iterRows
     split <;> simp [iterRows_length ncols n]
 
-/-- After the first failing row every further item is that same error (the slice is not advanced). -/
-theorem iterRows_after_error (ncols : Nat) (e : Nat × String) :
-    ∀ (n : Nat) (buf : Bytes), readCells ncols 0 buf = .error e → iterRows ncols n buf = List.replicate n (.error e)
-  | 0, _, _ => rfl
-  | n + 1, buf, h => by
+/-- A cell read never panics (so the `"PANIC …"` strings of `readCells` / `skipRow` are never produced). -/
+theorem readBytesOpt_no_panic (s : St) (site : String) : (readBytesOpt s).1 ≠ .panic site := by
+  have := aw_readBytesOpt (A := 1) (B := 0) (Nat.le_refl _) s
+  intro h
+  cases hr : readBytesOpt s with
+  | mk o s1 => rw [hr] at this h; simp only at h; subst h; exact this
+
+/-- A row that fails at column `c` leaves the iterator AT THE FAILING CELL: from there the same read fails again. -/
+theorem skipRow_of_error : ∀ (n idx : Nat) (buf : Bytes) (c : Nat) (k : String),
+    readCells n idx buf = .error (c, k) →
+    ∃ p, skipRow n idx buf = (some (c, k), p) ∧ ∃ s', readBytesOpt { buf := p } = (.err k, s')
+  | 0, _, _, _, _, h => by simp [readCells] at h
+  | n + 1, idx, buf, c, k, h => by
+    unfold readCells at h
+    unfold skipRow
+    cases hr : readBytesOpt { buf := buf } with
+    | mk o s1 =>
+      rw [hr] at h
+      cases o with
+      | panic site => exact absurd (by rw [hr]) (readBytesOpt_no_panic { buf := buf } site)
+      | err k' =>
+        simp only at h ⊢
+        injection h with h; injection h with h1 h2; subst h1; subst h2
+        exact ⟨buf, rfl, s1, hr⟩
+      | ok cell =>
+        simp only at h ⊢
+        cases hrc : readCells n (idx + 1) s1.buf with
+        | error e =>
+          rw [hrc] at h
+          simp only at h
+          injection h with h; subst h
+          exact skipRow_of_error n (idx + 1) s1.buf c k hrc
+        | ok pr => rw [hrc] at h; simp at h
+
+/-- At a cell that cannot be read, every row fails at column 0 with that error and the iterator does not move. -/
+theorem stuck_at_failing_cell (m : Nat) (p : Bytes) (k : String) (s' : St)
+    (h : readBytesOpt { buf := p } = (.err k, s')) :
+    readCells (m + 1) 0 p = .error (0, k) ∧ skipRow (m + 1) 0 p = (some (0, k), p) := by
+  unfold readCells skipRow
+  simp only [h, and_self]
+
+/-- THE ERROR TAIL, as the code produces it: the first failing row reports the column `c` where it failed; every
+further announced row fails at column 0 with the same error kind (the iterator stands at the failing cell). -/
+theorem iterRows_after_error (ncols : Nat) (c : Nat) (k : String) (n : Nat) (buf : Bytes)
+    (h : readCells ncols 0 buf = .error (c, k)) :
+    iterRows ncols (n + 1) buf = .error (c, k) :: List.replicate n (.error (0, k)) := by
+  obtain ⟨p, hp, s', hs'⟩ := skipRow_of_error ncols 0 buf c k h
+  cases ncols with
+  | zero => simp [readCells] at h
+  | succ m =>
+    have hstuck := stuck_at_failing_cell m p k s' hs'
+    have rep : ∀ j, iterRows (m + 1) j p = List.replicate j (.error (0, k)) := by
+      intro j
+      induction j with
+      | zero => rfl
+      | succ j ih =>
+        unfold iterRows
+        simp only [hstuck.1, hstuck.2, List.replicate_succ, ih]
     unfold iterRows
-    simp only [h, List.replicate_succ]
-    rw [iterRows_after_error ncols e n buf h]
+    simp only [h, hp, rep n]
 
 /-- Up to the first error the items are exactly the rows `readRows` returns (the part the harness prints). -/
 theorem iterRows_prefix (ncols : Nat) : ∀ (n ridx : Nat) (buf : Bytes),
